@@ -60,18 +60,58 @@ def run(idx, rep, tier):
     rep.stats["exhaustive"] = True
 
 
+def lazy_consumption(idx, fi, m):
+    """collect()/fast_forward() interpreted over a generator that records every pull: each line is pulled once, in order, and only when
+    the previous one has been dealt with (a list() around the generator, or a look-ahead pull, would run the side effects of later
+    lines before/without the caller seeing them); a cut-off at nexts pulls nothing past the last line handed on."""
+    for total in (0, 1, 3):
+        for nexts in ((-1, 1, 2) if m == "collect" else (None,)):
+            lines = [[f"a{i}", f"b{i}"] for i in range(total)]
+
+            def nxt(i, c, r, a, k, lines=lines):
+                i.record_call("next()")
+
+                def g():
+                    for j, x in enumerate(lines):
+                        i.record_call("pull", j)
+                        yield list(x)
+                    i.record_call("exhausted")
+                return g()
+
+            it = Interp(idx, types={"self": "CsvPath"}, unknown_calls="residual", domains={"self.scanner": [Obj("scanner")]},
+                        handlers={"self.next": nxt, "ListLineSpooler": lambda i, c, r, a, k: Obj("spool"),
+                                  "spool.append": lambda i, c, r, a, k: i.record_call("append", a[0]),
+                                  "self.lines.append": lambda i, c, r, a, k: i.record_call("append", a[0])})
+            args = {"csvpath": None}
+            if m == "collect":
+                args.update({"nexts": nexts, "lines": None})
+            ps = it.run_all(fi, args=args)
+            if len(ps) != 1 or ps[0].result[0] != "return":
+                return False, f"{total} lines, nexts={nexts}: {len(ps)} paths, {ps[0].result}"
+            ev = [(kk, v) for k, kk, v in ps[0].trace if k == "call" and kk in ("next()", "pull", "append", "exhausted")]
+            cut = total if nexts in (-1, None) else min(total, max(nexts, 1))
+            want = [("next()", None)]
+            for j in range(cut):
+                want.append(("pull", j))
+                if m == "collect":
+                    want.append(("append", lines[j]))
+            if cut == total and (nexts in (-1, None) or total < max(nexts, 1)):
+                want.append(("exhausted", None))
+            if ev != want:
+                return False, (f"{total} lines, nexts={nexts}: the generator is used as {ev}; documented {want} (one self.next(), each line pulled once, in order, "
+                               "only after the previous one was dealt with, nothing pulled past the cut-off)")
+    return True, "lines come lazily from the one generator"
+
+
 def r1_r2(idx, rep):
     drivers = {"_consider_line", "_next_line", "matches", "track_line", "limit_collection"}
     for m, allowed_writes in (("collect", {"collecting", "lines"}), ("fast_forward", set())):
         fi = idx.method("CsvPath", m)
         rep.analysed(fi)
-        loops = [n for n in walk_no_nested(fi.node) if isinstance(n, ast.For)]
-        okl = len(loops) == 1 and unparse(K.resolve_local(fi, loops[0].iter)) == "self.next()"
-        rep.check(okl, "R1", f"{fi.file}::CsvPath.{m} iterates self.next()", f"loops over {[unparse(l.iter) for l in loops]}: lines must come lazily from the generator (wrapping it in list() would run the side effects of later lines)", K.where(fi, fi.node))
+        okl, detail = lazy_consumption(idx, fi, m)
+        rep.check(okl, "R1", f"{fi.file}::CsvPath.{m} iterates self.next()", detail, K.where(fi, fi.node))
         direct = [unparse(c) for c in walk_no_nested(fi.node) if isinstance(c, ast.Call) and call_name(c) in drivers and (K.call_receiver(c) or "").startswith("self")]
         rep.check(not direct, "R1", f"{fi.file}::CsvPath.{m} does not drive lines itself", f"{direct}", K.where(fi, fi.node))
-        nexts = [c for c in walk_no_nested(fi.node) if isinstance(c, ast.Call) and call_name(c) == "next"]
-        rep.check(len(nexts) == 1, "R1", f"{fi.file}::CsvPath.{m} one next() call", f"{len(nexts)}", K.where(fi, fi.node))
         writes = {t.attr for t, v, st in stores_in(fi.node) if isinstance(t, ast.Attribute) and unparse(t.value) == "self"}
         rep.check(writes <= allowed_writes, "R2", f"{fi.file}::CsvPath.{m} effect set", f"writes self.{sorted(writes - allowed_writes)}; the run state belongs to next()", K.where(fi, fi.node))
         # parse only when not yet parsed
